@@ -462,6 +462,7 @@ class Target(DataExchangeProtocol):
             self.miu = (atr_req.lr-3 - int(self.did is not None)
                         - int(self.nad is not None))
             self.rwt = 4096/13.56E6 * pow(2, rwt)
+            self.pni = None  # no packet received yet (also when activated again)
             self.acm = not (target.sens_res or target.sensf_res)
             self.cmd = bytearray(
                 struct.pack("B", len(target.dep_req)+1) + target.dep_req)
